@@ -98,6 +98,9 @@ func corr(args []string) {
 type secretCase struct {
 	Class string `json:"class"` // account | iat-account | name | corrected | enr-account | enr-ident | enr-name | dne-ssn
 	Value string `json:"value"` // the raw field value set on the file
+	// which file shape carries the value: for account / name 1 = CTX batch, 2 = ATX batch (else PPD); for corrected data
+	// the index of the change code (C01 … C09).  Kept by the placeholder case, so that the reference output has the same shape
+	Shape int `json:"shape,omitempty"`
 }
 
 type failure struct {
@@ -172,10 +175,13 @@ func buildFile(c secretCase) *ach.File {
 	switch c.Class {
 	case "account", "name":
 		sec := ach.PPD
-		if len(c.Value)%3 == 1 {
+		switch c.Shape % 4 {
+		case 1:
 			// corporate batches: the name column of CTX / ATX entries starts with the four-digit addenda count when
 			// the entry is built by the library, but it is the same 22 columns of the record
-			sec = []string{ach.CTX, ach.ATX}[len(c.Value)/3%2]
+			sec = ach.CTX
+		case 2:
+			sec = ach.ATX
 		}
 		b, _ := ach.NewBatch(baseHeader(sec))
 		e := baseEntry(ach.CheckingCredit)
@@ -191,7 +197,7 @@ func buildFile(c secretCase) *ach.File {
 		e := baseEntry(ach.CheckingReturnNOCCredit)
 		e.Amount = 0
 		a := ach.NewAddenda98()
-		a.ChangeCode = []string{"C01", "C02", "C03", "C04", "C05", "C06", "C07", "C09"}[len(c.Value)%8]
+		a.ChangeCode = []string{"C01", "C02", "C03", "C04", "C05", "C06", "C07", "C09"}[c.Shape%8]
 		a.OriginalTrace = "121042880000001"
 		a.OriginalDFI = "12104288"
 		a.CorrectedData = c.Value
@@ -409,7 +415,7 @@ func checkCase(c secretCase) []failure {
 
 func genCase(r *rng.R) secretCase {
 	classes := []string{"account", "account", "iat-account", "name", "name", "corrected", "enr-account", "enr-ident", "enr-name", "dne-ssn"}
-	c := secretCase{Class: rng.Pick(r, classes)}
+	c := secretCase{Class: rng.Pick(r, classes), Shape: r.Intn(8)}
 	switch c.Class {
 	case "account":
 		c.Value = randValue(r, valueAlphabet, 17)
@@ -557,7 +563,7 @@ func replay(args []string) {
 		os.Exit(0)
 	}
 	fails := checkCase(rp.Input)
-	if strings.HasPrefix(rp.Key, "cli:") {
+	if strings.HasPrefix(rp.Key, "cli:") || rp.Failure.CLI > 0 {
 		bin := os.Getenv("VERIF_ACHCLI")
 		dir, err := os.MkdirTemp("", "c20cli")
 		if bin == "" || err != nil {
